@@ -18,9 +18,9 @@ CLAIMED = {
  "C07": ("static analysis: lock-region dataflow + SSA value patterns",
          "decides, for all paths, the premises from which linearizability and the exact rollover count follow: every access to the counter state lies in a critical section of the receiver's mutex, the transition is exactly +1 with natural uint16 wrap, the rollover counter moves exactly when the new value is 0, and the start-value conventions hold; histories are not enumerated",
          "trusts sync.Mutex semantics and go/ssa"),
- "C08": ("static analysis: origin (alias) analysis + linear-inequality abstract interpretation",
-         "for Payload of every rtp.Payloader implementation: no write whose destination may be the caller's buffer, every returned fragment freshly allocated, no retained state pointing into the input, and all panic obligations of the payloaders and their closures/helpers proved or listed as assumed (AV1 and H265 aggregation arithmetic)",
-         "fragment <= MTU is a linear contract at every append of a fragment (VP8, VP9, H264, H265 single/FU, G711/G722 proved; H265 aggregation assumed with the sum argument; AV1 grows fragments in place and is not covered); assumed entries are listed with reasons in the evidence"),
+ "C08": ("static analysis: origin (alias) analysis + linear-inequality abstract interpretation (modular for the AV1 helpers)",
+         "for Payload of every rtp.Payloader implementation: no write whose destination may be the caller's buffer, every returned fragment freshly allocated, no retained state pointing into the input, and all panic obligations of the payloaders and their closures/helpers proved or listed as assumed; every emitted fragment is at most MTU octets long as a linear contract at every append to the fragment list and at every store into one of its elements: proved for G711, G722, VP8, VP9, H264, H265 single/FU and now for AV1 (appendOBUPayload and computeWriteSize are analysed as entries of their own under preconditions that are obligations at their call sites; computeWriteSize's postcondition r + len(LEB128(r)) <= canWrite is proved at its returns; the LEB128 length table used is re-derived from WriteToLeb128's code in the same run, LEB.len)",
+         "H265 aggregation packets are assumed with the sum argument (listed); two AV1 obligations (an already stored packet is non-empty) are assumed; 'non-empty whenever the input is non-empty' is not decided"),
  "C09": ("static analysis: linear-inequality abstract interpretation + must-write dataflow + origin analysis",
          "no-panic obligations for Unmarshal/IsPartitionHead/IsPartitionTail of every rtp.Depacketizer and the deprecated AV1 path for any byte string and receiver state; per-packet decoders (VP8, VP9, H265, Opus) define every decoded field on every success path; carried buffers of the stateful depacketizers never alias an input",
          "six obligations assumed (LEB128 value < 2^56, a relation lost by summarisation); result equality on reuse is decided through its cause"),
